@@ -134,7 +134,7 @@ int run_main(int argc, char** argv, const Config& cfg, Body body, Enumerator enu
   std::string mode, out, faildir = ".", replay;
   long n = 100, seed = 1;
   int size = 100, level = 0;
-  double max_seconds = 0;
+  double max_seconds = 0, shrink_seconds = 90, shrink_start = 0;
   for (int i = 1; i < argc; ++i) {
     std::string a = argv[i];
     auto next = [&]() { return std::string(i + 1 < argc ? argv[++i] : ""); };
@@ -148,6 +148,7 @@ int run_main(int argc, char** argv, const Config& cfg, Body body, Enumerator enu
     else if (a == "--out") out = next();
     else if (a == "--faildir") faildir = next();
     else if (a == "--max-seconds") max_seconds = atof(next().c_str());
+    else if (a == "--shrink-seconds") shrink_seconds = atof(next().c_str());
   }
   if (__sanitizer_set_death_callback) __sanitizer_set_death_callback(OnSanitizerDeath);
   auto t0 = std::chrono::steady_clock::now();
@@ -202,6 +203,9 @@ int run_main(int argc, char** argv, const Config& cfg, Body body, Enumerator enu
   bool ok = rc::check(std::string(cfg.id) + "/" + cfg.sub, [&]() {
     auto tape = *rc::gen::scale(double(scale), rc::gen::container<std::vector<uint8_t>>(rc::gen::arbitrary<uint8_t>()));
     if (!in_shrink && max_seconds > 0 && elapsed() > max_seconds) { ++st.skipped_deadline; return; }
+    // bounded shrinking: past the budget every remaining candidate "passes"
+    // without being run, so rapidcheck settles on the best failing tape so far
+    if (in_shrink && elapsed() - shrink_start > shrink_seconds) return;
     if (pfd >= 0) {
       if (ftruncate(pfd, 0) == 0) { ssize_t w = pwrite(pfd, tape.data(), tape.size(), 0); (void)w; }
     }
@@ -211,6 +215,7 @@ int run_main(int argc, char** argv, const Config& cfg, Body body, Enumerator enu
     if (trace) fprintf(stderr, "TRACE %.3fs %s\n", elapsed() - tb, o.desc.str().substr(0, 300).c_str());
     if (!in_shrink) st.absorb(o);
     if (!o.ok && !o.excluded && (!in_shrink || o.sig == st.fail_sig)) {
+      if (!in_shrink) shrink_start = elapsed();
       in_shrink = true;  // every later call is a shrink candidate
       st.failed = true; st.fail_tape = tape; st.fail_sig = o.sig; st.fail_msg = o.msg; st.fail_desc = o.desc.str();
       RC_FAIL(o.sig + ": " + o.msg);
